@@ -11,7 +11,7 @@ import sys
 import tempfile
 
 VERIF = os.path.dirname(os.path.abspath(__file__))
-src = sys.argv[1] if len(sys.argv) > 1 else os.path.join(VERIF, "seeded")
+src = os.path.abspath(sys.argv[1]) if len(sys.argv) > 1 else os.path.join(VERIF, "seeded")
 run_tests = "--tests" in sys.argv
 only = [a for a in sys.argv[2:] if not a.startswith("--")]
 rows = []
